@@ -65,4 +65,10 @@ def DimExpr.evaluate (d : DimExpr) (σ : Scope) : EvalResult :=
     | none => .keyError d.identifier   -- unreachable
   else runPostfix d.post [] σ
 
+/-- parse a dimension string and evaluate it: `expression_from_string(s).evaluate(scope)`; `none` = SyntaxError -/
+def evalString (s : List Char) (σ : Scope) : Option EvalResult :=
+  match parseDim s with
+  | .ok d => some (d.evaluate σ)
+  | .error _ => none
+
 end Dltype
